@@ -307,6 +307,8 @@ func runC11(c *Ctx) {
 	// ---------- R2: after 'S'
 	okEdge := nilEdges(resultOf(sWrite, 1), true)
 	var tlsCall *ssa.Call
+	var wrapCall *ssa.Call // the call of a wrapping helper that holds tlsCall
+	var wrapParam *ssa.Parameter
 	for _, u := range usesAfter(connP, sWrite) {
 		if !anyDominates(okEdge, u.Block()) {
 			continue // the write-error edge: the connection ends
@@ -315,6 +317,63 @@ func runC11(c *Ctx) {
 		if isCall && core.FuncIs(core.StaticCallee(call), "crypto/tls", "Server") {
 			tlsCall = call
 			continue
+		}
+		// a private helper that does nothing with the connection but wrap it, and hands back the TLS connection and a
+		// reader built on it (secureConn(conn) (net.Conn, *buffer.Reader))
+		if isCall {
+			if h := core.StaticCallee(call); h != nil && c.P.InPkg(h, "wire") && h.Blocks != nil && c.onlyCaller(h) == ssa.CallInstruction(call) {
+				var hp *ssa.Parameter
+				for i, a := range call.Call.Args {
+					if a == ssa.Value(connP) && i < len(h.Params) {
+						hp = h.Params[i]
+					}
+				}
+				var t *ssa.Call
+				onlyWrap := hp != nil
+				if hp != nil {
+					for _, r := range core.Referrers(hp) {
+						switch x := r.(type) {
+						case *ssa.Call:
+							if core.FuncIs(core.StaticCallee(x), "crypto/tls", "Server") && x.Call.Args[0] == ssa.Value(hp) {
+								t = x
+							} else {
+								onlyWrap = false
+							}
+						case *ssa.DebugRef:
+						default:
+							onlyWrap = false
+						}
+					}
+				}
+				okRet := t != nil && onlyWrap && len(returns(h)) > 0
+				for _, r := range returns(h) {
+					if len(r.Results) != 2 {
+						okRet = false
+						continue
+					}
+					rc := core.Strip(r.Results[0])
+					if mi, ok := rc.(*ssa.MakeInterface); ok {
+						rc = mi.X
+					}
+					nrc, isNR := r.Results[1].(*ssa.Call)
+					if !isNR || core.StaticCallee(nrc) != c.P.Func("buffer", "NewReader") {
+						okRet = false
+						continue
+					}
+					src := core.Strip(nrc.Call.Args[1])
+					if mi, ok := src.(*ssa.MakeInterface); ok {
+						src = mi.X
+					}
+					if rc != ssa.Value(t) || src != ssa.Value(t) {
+						okRet = false
+					}
+				}
+				if okRet {
+					tlsCall, wrapCall, wrapParam = t, call, hp
+					R.Analysed(fname(h))
+					continue
+				}
+			}
 		}
 		R.Fail("C11.R2", "potentialConnUpgrade:plain-conn-used-after-S:"+instrDescr(u), c.at(u), "after 'S' the plaintext connection is used only to build the TLS connection", "the plaintext connection is used after 'S' by: "+instrDescr(u)+" - bytes can be read or written outside TLS")
 	}
@@ -326,14 +385,18 @@ func runC11(c *Ctx) {
 		R.Fail("C11.R2", "potentialConnUpgrade:old-reader-used-after-S:"+instrDescr(u), c.at(u), "the pre-upgrade reader (which may hold plaintext pushed ahead of the handshake) is never used after 'S'", "the pre-upgrade reader is used after 'S' by: "+instrDescr(u)+" - buffered plaintext would be interpreted as protocol messages")
 	}
 	if tlsCall != nil {
-		R.Check(tlsCall.Call.Args[0] == ssa.Value(connP), "C11.R2", "potentialConnUpgrade:tls-over-same-conn", c.at(tlsCall), "the TLS session runs over the connection that received 'S'", "tls.Server(conn, ..) on the conn parameter", "tls.Server wraps a different connection")
+		R.Check(tlsCall.Call.Args[0] == ssa.Value(connP) || (wrapParam != nil && tlsCall.Call.Args[0] == ssa.Value(wrapParam)), "C11.R2", "potentialConnUpgrade:tls-over-same-conn", c.at(tlsCall), "the TLS session runs over the connection that received 'S'", "tls.Server(conn, ..) on the conn parameter", "tls.Server wraps a different connection")
 		if fr, ok := core.FieldOfValue(tlsCall.Call.Args[1]); !ok || !fr.Is(pkWire, "Server", "TLSConfig") {
 			R.Fail("C11.R2", "potentialConnUpgrade:tls-config", c.at(tlsCall), "the TLS session uses the configured TLSConfig", "tls.Server is not given Server.TLSConfig")
 		}
 		// returns of the upgraded region
 		nr := c.P.Func("buffer", "NewReader")
 		for _, r := range returns(pcu) {
-			if !core.InstrDominates(tlsCall, r) {
+			anchor := ssa.Instruction(tlsCall)
+			if wrapCall != nil {
+				anchor = wrapCall
+			}
+			if !core.InstrDominates(anchor, r) {
 				continue
 			}
 			rc := core.Strip(r.Results[0])
@@ -342,6 +405,10 @@ func runC11(c *Ctx) {
 			}
 			okConn := rc == ssa.Value(tlsCall)
 			okReader := false
+			if wrapCall != nil {
+				okConn = rc == resultOf(wrapCall, 0)
+				okReader = r.Results[1] == resultOf(wrapCall, 1)
+			}
 			if call, ok := r.Results[1].(*ssa.Call); ok && core.StaticCallee(call) == nr {
 				src := core.Strip(call.Call.Args[1])
 				if mi, ok := src.(*ssa.MakeInterface); ok {
@@ -601,7 +668,7 @@ func runC11(c *Ctx) {
 	for _, site := range c.P.CallSitesOf(nrf) {
 		if c.P.InPkg(site.Parent(), "wire") {
 			where = append(where, fkey(site.Parent()))
-			okSite := fkey(site.Parent()) == "(*Server).Handshake" || (site.Parent() == pcu && tlsCall != nil && core.InstrDominates(tlsCall, site))
+			okSite := fkey(site.Parent()) == "(*Server).Handshake" || (tlsCall != nil && site.Parent() == tlsCall.Parent() && core.InstrDominates(tlsCall, site))
 			R.Check(okSite, "C11.R3", "NewReader-site:"+fkey(site.Parent()), c.at(site), "a connection's reader is constructed only at the start of the handshake and on the freshly upgraded TLS connection", "designated construction site", "buffer.NewReader is constructed in "+fname(site.Parent())+": bytes buffered by the previous reader are dropped (segmentation-dependent behaviour) or plaintext survives the upgrade")
 		}
 	}
@@ -611,7 +678,7 @@ func runC11(c *Ctx) {
 		if site.Parent() == hs {
 			hsSite = site
 		}
-		if site.Parent() == pcu && tlsCall != nil && core.InstrDominates(tlsCall, site) {
+		if tlsCall != nil && site.Parent() == tlsCall.Parent() && core.InstrDominates(tlsCall, site) {
 			tlsSite = site
 		}
 	}
